@@ -103,7 +103,9 @@ func runRPC(c RPCCase, o *vt.Obs) *vt.Failure {
 	tb := []byte(name)
 	m := model.New()
 	idx := uint64(1)
-	call := func() (context.Context, context.CancelFunc) { return context.WithTimeout(context.Background(), 60*time.Second) }
+	call := func() (context.Context, context.CancelFunc) {
+		return context.WithTimeout(context.Background(), 60*time.Second)
+	}
 	put := func(k, v []byte) error {
 		ctx, cancel := call()
 		defer cancel()
